@@ -6,6 +6,7 @@ timeout = 600
 function = "DetailedPlacement::check (third loop: orientation of every cell rowCells() lists against its polarity and row) (detailed_placement.cpp)"
 assumptions = ["checker soundness: a normal return of the orientation loop of check() implies that every cell listed in a row by rowCells() sits in a row its polarity allows and has exactly the prescribed orientation (spec written from the property, prelude/spec/orient.h); check() is the last step of every detailed placement stage before export",
                "rowCells(row) (a std::vector built by walking the row chain) is a ghost array: the ghost row's list is arbitrary cell indices in range with an arbitrary ghost position, every other row lists arbitrary cells (over-approximation); that the chain from rowFirstCell_ reaches every cell of the row is the chain lemma of unit c02_dp_place",
+               "type invariant: every stored cell polarity is one of the five declared enum values (instantiated at each listed cell); otherwise cellOrientationInRow reaches its abort()",
                "the structural loops of check() are unit c02_dp_check"]
 [replay]
 template = "replay/c02_detailed_history.cpp"
@@ -55,7 +56,7 @@ at = 'body_start:1'
 text = '''const int g_rs = ROWSIZE(i); __CPROVER_assume(0 <= g_rs && g_rs <= NMAX);'''
 [[ghosts]]
 after = 'int c = ROWCELL\(i, _k\);'
-text = '''__CPROVER_assume(0 <= c && c < NC); /* INSTANTIATE cells_in_range: rowCells lists cells of the placement */'''
+text = '''__CPROVER_assume(0 <= c && c < NC); const CellRowPolarity g_pc = this->cellRowPolarity_[c]; __CPROVER_assume(VALID_POLARITY(g_pc)); /* INSTANTIATE cells_in_range: rowCells lists cells of the placement; polarity_valid(c): every stored polarity is one of the five declared values (type invariant of the enum member) */'''
 [[loops]]
 ordinal = 1
 contract = '''
